@@ -226,4 +226,20 @@ theorem C13_pass_pass_idempotent_counterexample : ¬ C13_pass_pass_idempotent :=
   revert this
   decide
 
+/-- **C13 (idempotence of `suppress_useless_pass_statements`), partial.** Hypothesis = complement of
+the finding's input class: no `pass` line of the text is indented. -/
+theorem C13_pass_pass_idempotent_partial (t : Text) (h : NoIndentedPass (splitNl t)) :
+    suppressUselessPass (suppressUselessPass t) = suppressUselessPass t :=
+  suppressUselessPass_idem t h
+
+example : NoIndentedPass (splitNl "pass\npass\nif x:\n    y = 1\npass".toList) := by
+  intro l hl k hk
+  have : ∀ l ∈ splitNl "pass\npass\nif x:\n    y = 1\npass".toList,
+      passIndent? l = none ∨ passIndent? l = some 0 := by decide
+  rcases this l hl with h | h <;> rw [h] at hk <;> simp at hk
+  exact hk.symm
+
+example : suppressUselessPass "pass\npass\nif x:\n    y = 1\npass".toList = "if x:\n    y = 1\npass".toList := by
+  decide
+
 end Paroxy.Props.C13
